@@ -113,6 +113,23 @@ theorem same_padding_whole_op (kh sy H : Int) (hsy : 1 ≤ sy) :
   generalize (sameOut H sy - 1) * sy = T
   omega
 
+/-- **Explicit padding (a PAD folded into its consumer) of an operator executed as one stripe**: `calc_explicit_padding`
+    keeps the leading padding and returns as trailing padding exactly what the receptive field of the last output row
+    needs, `after' = max((out-1)*s - before + k_dil - H, 0)` with `out = (H + before + after - k_dil) / s + 1` the output
+    size over the padded input — for every stride (before the repair of `calc_explicit_padding` the trailing padding was
+    dropped when `needed_total_padding` was clamped, e.g. filter 2, stride 3, H ≡ 0 mod 3, pads 1/1: (1, 0) instead of (1, 1)). -/
+theorem explicit_padding_whole_op (H s kd before : Int) (after : Nat) (hs : 1 ≤ s)
+    (hout : 1 ≤ (H + before + after - kd) / s + 1) :
+    let out := (H + before + after - kd) / s + 1
+    calcExplicitPadding H s kd before after = (before, max ((out - 1) * s - before + kd - H) 0) := by
+  intro out
+  have hdiv : (H + before + after - kd) / s * s ≤ H + before + after - kd := Int.ediv_mul_le _ (by omega)
+  have hmax : max ((H + before + (after : Int) - kd) / s + 1) 1 = (H + before + after - kd) / s + 1 := by omega
+  simp only [calcExplicitPadding, out, hmax, Int.add_sub_cancel]
+  generalize (H + before + (after : Int) - kd) / s * s = Q at *
+  congr 1
+  omega
+
 /-- the padding `create_padding` hands to the NPU operation for the rows is the stripe's own
     `pad_top`/`pad_bottom`, except for an operator executed as one stripe, which gets the operator's
     explicit padding -/
